@@ -149,6 +149,8 @@ def attribute(f):
         props |= {"C16", "C12"}
     if rules & {"Checkpoint", "Rebuilding", "Mode", "Open"}:
         props |= {"C12", "C17"}
+    if "PlanTarget" in rules:
+        props |= {"C11", "C12"}
     if "Candidates" in rules:
         props.add("C11")
         # a candidate that is a retained user snapshot, or whose merge target is one: the
@@ -286,6 +288,8 @@ def event_to_op(e):
         op.pop(k, None)
     if e["ev"] == "SyncFile":
         op["blocks"] = [(d[0] if d else 0) for d in op.pop("data", [])]
+    if e["ev"] == "WriteStride":
+        op["n"] = op.pop("count")
     return op
 
 
@@ -430,17 +434,40 @@ def run(prop, tier, seed, replay=None, embed=False):
                     shutil.copyfileobj(f, tf)
 
         # ---- (C) trace validation
-        result = run_tlc_trace("ReplicaTrace", {"MaxNB": 16, "SPB": 8, "Bug": "{}"}, trace,
+        maxnb = 16
+        if replay is not None:
+            maxnb = max(16, int(json.load(open(replay))["scenario"].get("nb", 0)))
+        result = run_tlc_trace("ReplicaTrace", {"MaxNB": maxnb, "SPB": 8, "Bug": "{}"}, trace,
                                timeout=900 if quick else 5400)
         if result["consumed"] != result["records"]:
             raise HarnessError("trace validation consumed %d of %d records" % (result["consumed"], result["records"]))
+        big_trace = None
+        if prop == "C01" and replay is None and not embed:
+            # volumes of thousands of blocks (files fragmented into more than 1024 extents: the
+            # extent listing comes in batches): hand-written executions with composite write
+            # records, validated in a run of their own (the block-indexed functions of the
+            # specification are that much larger)
+            big_trace = os.path.join(work, "tbig.ndjson")
+            os.makedirs(os.path.join(work, "pbig"))
+            (rc, out), = run_parallel([[os.path.join(BUILD, "replicadrv"), "-out", big_trace, "-work", os.path.join(work, "pbig"),
+                                        "-in", os.path.join(VERIF, "scenarios", "replica_big.ndjson")]], timeout=600)
+            if rc != 0:
+                raise HarnessError("driver failed on the large-volume scenarios rc=%s\n%s" % (rc, out[-2000:]))
+            nbmax = max(json.loads(l)["nb"] for l in open(os.path.join(VERIF, "scenarios", "replica_big.ndjson")) if l.strip())
+            rbig = run_tlc_trace("ReplicaTrace", {"MaxNB": nbmax, "SPB": 8, "Bug": "{}"}, big_trace, timeout=1800)
+            if rbig["consumed"] != rbig["records"]:
+                raise HarnessError("trace validation (large volumes) consumed %d of %d records" % (rbig["consumed"], rbig["records"]))
+            result["failed"] = list(result["failed"]) + list(rbig["failed"])
+            result["records"] += rbig["records"]
+            result["traces"] += rbig["traces"]
 
         # group recorded events by execution for replay files / samples
         by_t = {}
-        with open(trace) as f:
-            for line in f:
-                e = json.loads(line)
-                by_t.setdefault(e["t"], []).append(e)
+        for tfile in [trace] + ([big_trace] if big_trace else []):
+            with open(tfile) as f:
+                for line in f:
+                    e = json.loads(line)
+                    by_t.setdefault(e["t"], []).append(e)
 
         violations, known, others, unexplained = [], [], [], []
         for f_ in result["failed"]:
